@@ -2,6 +2,7 @@ package completion
 
 import (
 	"unicode"
+	"unicode/utf8"
 
 	"github.com/reeflective/readline/inputrc"
 	"github.com/reeflective/readline/internal/core"
@@ -115,9 +116,11 @@ func (e *Engine) acceptCandidate() {
 	completion := e.prepareSuffix()
 	e.inserted = []rune(completion)
 
-	// Remove the line prefix and insert the candidate.
-	e.cursor.Move(-1 * len(e.prefix))
-	e.line.Cut(e.cursor.Pos(), e.cursor.Pos()+len(e.prefix))
+	// Remove the line prefix (counted in characters,
+	// like cursor positions) and insert the candidate.
+	prefixLen := utf8.RuneCountInString(e.prefix)
+	e.cursor.Move(-1 * prefixLen)
+	e.line.Cut(e.cursor.Pos(), e.cursor.Pos()+prefixLen)
 	e.cursor.InsertAt(e.inserted...)
 
 	// And forget about this inserted completion.
@@ -151,9 +154,11 @@ func (e *Engine) insertCandidate() {
 	e.compCursor = core.NewCursor(e.compLine)
 	e.compCursor.Set(e.cursor.Pos())
 
-	// Remove the line prefix and insert the candidate.
-	e.compCursor.Move(-1 * len(e.prefix))
-	e.compLine.Cut(e.compCursor.Pos(), e.compCursor.Pos()+len(e.prefix))
+	// Remove the line prefix (counted in characters,
+	// like cursor positions) and insert the candidate.
+	prefixLen := utf8.RuneCountInString(e.prefix)
+	e.compCursor.Move(-1 * prefixLen)
+	e.compLine.Cut(e.compCursor.Pos(), e.compCursor.Pos()+prefixLen)
 	e.compCursor.InsertAt(e.inserted...)
 }
 
@@ -178,7 +183,7 @@ func (e *Engine) prepareSuffix() (comp string) {
 	// matcher for later: whatever the decision we take here will be identical
 	// to the one we take while removing suffix in "non-virtual comp" mode.
 	e.sm = cur.noSpace
-	e.sm.pos = e.cursor.Pos() + len(comp) - prefix - 1
+	e.sm.pos = e.cursor.Pos() + utf8.RuneCountInString(comp) - utf8.RuneCountInString(e.prefix) - 1
 
 	return comp
 }
